@@ -75,7 +75,7 @@ PROPS = {
     "C09": {
         "streams": ["array", "persist", "nested", "mapcollide", "slabid"], "driver": {"array": "array", "persist": "array", "nested": "world", "mapcollide": "map", "slabid": "slabid"}, "level": "proof",
         "trusted_base": LEAN_TB, "assumptions": ARRAY_ASSUME + NEST_ASSUME + [
-            "Lean obligations are the ARRAY container level (effects_complete, pop_releases_all, tree_ownership, allocated_ids_fresh); maps, collision-group slabs and inline<->standalone transitions are tied by the per-operation comparison of the net SlabStorage effect (EFF lines) and checked on the implementation by CheckStorageHealth with the exact expected root count",
+            "Lean obligations: single containers (arrays C09.*, maps C09Map.*: effects_complete, pop_releases_all, tree_ownership, allocated_ids_fresh) and NESTED containers (C09W.*: the effect log of every World operation incl. inline<->standalone transitions, the whole parent-callback chain, bulk pops through handles and disposal is a complete account of the heap = standalone trees + group slabs of inlined maps; world_heap_exact along any history); every model effect log is compared with the real SlabStorage call sequence per operation (EFF lines) and the implementation is checked by CheckStorageHealth with the exact expected root count",
             "the caller disposes of what the library hands back (the harness removes returned large-value slabs: DSP lines)"],
         "rule": "array / map-collision / nested histories; after every operation the net store/remove/alloc effect of the real SlabStorage calls is compared with the model's effect log; every 20 nested operations CheckStorageHealth(storage, 1 + detached) on the implementation; distinct = distinct programs",
         "explanation": "Theorems: insert/set/remove_effects_complete (every slab whose content changed was stored, every slab that left the tree was removed, nothing else touched), pop_releases_all (emptying releases every slab but the root), tree_ownership (no slab owned twice, all under one address), allocated_ids_fresh. Graph level: C20. Oracle: storage health with exact root count.",
